@@ -31,6 +31,13 @@ def iq_local_type(fn, nid):
     n = fn.nodes[fn.skip(nid)]
     if n['k'] == 'call' and fn.cname(n) in ('std::move',):
         n = fn.nodes[fn.skip(n['args'][0])]
+    if n['k'] == 'call' and _PROG[0] is not None and not n.get('op'):
+        # an IQ built by a same-file helper: the type of the object that helper returns
+        for g in _PROG[0].callee_fns(fn, n):
+            if g.file == fn.file and g.entry is not None and not g.is_lambda:
+                ts = {iq_local_type(g, r['e']) for _, r in g.returns() if 'e' in r}
+                if len(ts) == 1:
+                    return ts.pop()
     if n['k'] != 'var':
         if n['k'] == 'construct' and n.get('cls') == 'QXmppPacket' and n.get('args'):
             return iq_local_type(fn, n['args'][0])
@@ -558,6 +565,12 @@ def r2(prog, run, ctx):
         run.instance(rid)
         ids = [fn.fmt(n['args'][0]) for i, n in fn.calls('QXmppStanza::setId') if n.get('args')]
         tos = [fn.fmt(n['args'][0]) for i, n in fn.calls('QXmppStanza::setTo') if n.get('args')]
+        # ... or in a same-file helper that receives the request element and builds the error
+        for i, n in fn.calls():
+            for g in prog.callee_fns(fn, n):
+                if g.file == fn.file and g.entry is not None and not g.is_lambda and n.get('args') and fn.fmt(n['args'][0]) == 'p0' and not n.get('obj'):
+                    ids += [g.fmt(m['args'][0]) for _, m in g.calls('QXmppStanza::setId') if m.get('args')]
+                    tos += [g.fmt(m['args'][0]) for _, m in g.calls('QXmppStanza::setTo') if m.get('args')]
         if ids == ['p0.QDomElement::attribute("id")'] and tos == ['p0.QDomElement::attribute("from")']:
             run.ok(rid, fn.loc(), '%s: error reply id <- request id, to <- request from' % qn.split('::')[-1])
         else:
@@ -567,8 +580,12 @@ def r2(prog, run, ctx):
     rets = [(i, pipe.const_value(n['e'])) for i, n in pipe.returns() if 'e' in n]
     in_loop = [i for i, v in rets if v == ('bool', True) and any(True for (_, b, e) in pipe.edges_dominating(pipe.pos(i)[0])
                                                                  if pipe.blocks[b].get('term', {}).get('k') == 'rangefor' and e == 0)]
+    short_circuit_algo = any(pipe.cname(pipe.nodes[pipe.skip(n['e'])]) in ('std::any_of', 'std::ranges::any_of', 'std::find_if', 'std::ranges::find_if')
+                             for i, n in pipe.returns() if 'e' in n and pipe.nodes[pipe.skip(n['e'])]['k'] == 'call')
     if in_loop and any(v == ('bool', False) for _, v in rets):
         run.ok(rid, pipe.loc(), 'StanzaPipeline::process returns at the first extension that claims the stanza')
+    elif short_circuit_algo:
+        run.ok(rid, pipe.loc(), 'StanzaPipeline::process uses std::any_of / find_if over the extension list (stops at the first owner by contract)')
     else:
         run.violation(rid, 'StanzaPipeline::process#first-owner', pipe.loc(), 'the extension chain does not stop at the first owner')
 
